@@ -51,6 +51,12 @@ impl Mode {
     }
 }
 
+std::thread_local! {
+    /// neutraliser of known finding 13 (attach under a clean hidden node): after every op that attaches a child, mark
+    /// every ancestor of the new parent dirty, one by one (`mark_dirty` itself stops at the first empty cache)
+    static DIRTY_UP_AFTER_ATTACH: Cell<bool> = const { Cell::new(false) };
+}
+
 struct ModeGuard(bool, bool);
 impl ModeGuard {
     fn set(m: Mode) -> Self {
@@ -697,7 +703,20 @@ fn run_history(ops: &[Op], mode: Mode) -> Vec<Step> {
                 steps.push(Step::Pass(PassObs { op_index: oi, root: *root, avail: *avail, rounding: live.m.rounding, desc, pre, hidden, below_hidden, inc, fresh, unjustified_hits, unjustified_first }));
             }
             _ => {
-                let r = catch(|| live.apply_tree(op));
+                let r = catch(|| {
+                    live.apply_tree(op);
+                    if DIRTY_UP_AFTER_ATTACH.with(|f| f.get()) {
+                        let p = match op {
+                            Op::AddChild(p, _) | Op::InsertChild(p, _, _) | Op::ReplaceChild(p, _, _) | Op::SetChildren(p, _) => Some(*p),
+                            _ => None,
+                        };
+                        let mut cur = p.map(|p| live.id(p));
+                        while let Some(n) = cur {
+                            live.t.mark_dirty(n).unwrap();
+                            cur = live.t.parent(n);
+                        }
+                    }
+                });
                 live.m.apply(op);
                 if r.is_err() {
                     dead = true;
@@ -838,6 +857,32 @@ fn run_all(ops: &[Op]) -> HistResult {
         }
     }
     drop(ps);
+    // finding 13 is "attached below a hidden and clean node": a difference at or below display:none nodes that survives
+    // the cache-mode neutralisers is attributed to it only if it disappears when the new parent's ancestors are marked
+    // dirty after each attach; otherwise it is new
+    if classes.iter().any(|m| m.iter().any(|cs| cs.contains(&Class::Hidden))) {
+        DIRTY_UP_AFTER_ATTACH.with(|f| f.set(true));
+        let up = run_history(ops, Mode::Quiet);
+        DIRTY_UP_AFTER_ATTACH.with(|f| f.set(false));
+        let updiffs: Vec<(usize, Diff)> = passes(&up).iter().map(|p| (p.op_index, p.diff())).collect();
+        for mi in 0..4 {
+            let ois: Vec<usize> = diffs[mi].iter().map(|x| x.0).collect();
+            for (k, cs) in classes[mi].iter_mut().enumerate() {
+                if cs.contains(&Class::Hidden) {
+                    let neutralised = updiffs.iter().find(|x| x.0 == ois[k]).map_or(false, |x| x.1.hidden.is_empty() && x.1.visible.is_empty() && !x.1.one_sided_panic);
+                    if !neutralised {
+                        for c in cs.iter_mut() {
+                            if *c == Class::Hidden {
+                                *c = Class::New;
+                            }
+                        }
+                        cs.sort();
+                        cs.dedup();
+                    }
+                }
+            }
+        }
+    }
     HistResult { runs, classes }
 }
 
@@ -1173,6 +1218,23 @@ fn witness_attach_under_hidden() -> Vec<Op> {
     ]
 }
 
+/// one update dirties a node and hides a proper ancestor of it: the hidden pass must still zero the dirtied subtree
+fn witness_hide_ancestor_after_dirty() -> Vec<Op> {
+    let av100 = avd(100.0, 100.0);
+    vec![
+        Op::NewTree(vec![
+            FNode { idx: 0, style: Style { display: Display::Block, ..leaf_style(100.0, 100.0) }, ctx: None, kids: vec![1] },
+            FNode { idx: 1, style: disp(Display::Block), ctx: None, kids: vec![2] },
+            FNode { idx: 2, style: disp(Display::Flex), ctx: None, kids: vec![3] },
+            FNode { idx: 3, style: Style { display: Display::Block, ..leaf_style(30.0, 30.0) }, ctx: None, kids: vec![] },
+        ]),
+        Op::Compute(0, av100),
+        Op::MarkDirty(2),
+        Op::SetStyle(1, disp(Display::None)),
+        Op::Compute(0, av100),
+    ]
+}
+
 /// minimised from the random search (seed 1, case 10075): mark_dirty + same pass, pure lossy key.
 /// n2's ComputeSize entry for known (2,-), avail (max,max) is first asked with an unknown parent width (percentage padding
 /// resolves to 0 → 2 wide) and later stored again under parent width 24 (padding 9 → 9 wide); parent_size is not part of the
@@ -1270,6 +1332,8 @@ fn fixed_witnesses() -> Vec<(&'static str, Vec<Op>)> {
         ("fixed:two-passes-flex-block-grid", witness_two_passes_flex_block_grid()),
         ("fixed:mark-dirty-stale-after-compute-size", witness_mark_dirty_stale()),
         ("fixed:hidden-child-order", witness_hidden_order()),
+        // no class expected: equal to the fresh tree
+        ("fixed:hide-ancestor-after-dirty", witness_hide_ancestor_after_dirty()),
     ]
 }
 
@@ -1458,8 +1522,10 @@ pub fn run_c01(cfg: &Cfg, out: &mut Out) -> String {
             out.begin_case(idx, label);
             c01_one(out, &ops, "fixed", true, &mut st);
             let r = run_all(&ops);
-            if !r.any(0, expect[k]) {
-                out.notes.push(format!("{label}: the witness no longer shows {:?} in the real cache mode (classes now: {:?})", expect[k], r.classes[0]));
+            if let Some(e) = expect.get(k) {
+                if !r.any(0, *e) {
+                    out.notes.push(format!("{label}: the witness no longer shows {:?} in the real cache mode (classes now: {:?})", e, r.classes[0]));
+                }
             }
         }
         idx += 1;
@@ -1644,6 +1710,53 @@ struct Cost {
     /// the query budget (1024 · N layout queries) was exceeded and the pass aborted
     queries_exceeded: bool,
     panicked: Option<String>,
+    /// the layout queries of the pass in completion order, as (preorder index of the node, event)
+    events: Vec<(usize, vh::TraceEvent)>,
+}
+
+/// In-situ cache tie: the queries one pass made of each node's cache, replayed on the Lean cache model. On a fresh tree
+/// a node's cache sees, per query in completion order, `get` (hit → answer) or `get` (miss) followed by `store` of the
+/// computed output. At most `cap` request lines are written; per node the sequence written is a prefix.
+fn emit_cache_tie(out: &mut Out, c: &Cost, cap: usize) {
+    let mut per: BTreeMap<usize, Vec<&vh::TraceEvent>> = BTreeMap::new();
+    for (i, e) in &c.events {
+        per.entry(*i).or_default().push(e);
+    }
+    let mut lines = 0usize;
+    for (_i, evs) in per {
+        if lines >= cap {
+            break;
+        }
+        out.qa("cache new", "ok");
+        for e in evs {
+            if lines >= cap {
+                break;
+            }
+            let key = format!(
+                "{} {} {} {} {}",
+                hxo(e.input.known_dimensions.width),
+                hxo(e.input.known_dimensions.height),
+                crate::c02::show_av(e.input.available_space.width),
+                crate::c02::show_av(e.input.available_space.height),
+                crate::c02::show_mode(e.input.run_mode)
+            );
+            match e.kind {
+                vh::QueryKind::Hit => {
+                    out.qa(&format!("cache get {key}"), &format!("some {}", crate::c02::show_output(&e.output)));
+                    out.count("cache-tie:hit");
+                    lines += 1;
+                }
+                vh::QueryKind::Miss => {
+                    out.qa(&format!("cache get {key}"), "none");
+                    out.qa(&format!("cache store {key} {}", crate::c02::show_output(&e.output)), "ok");
+                    out.count("cache-tie:miss");
+                    lines += 2;
+                }
+                // a hidden-mode call clears the cache without telling what it held: the replayed prefix ends here
+                vh::QueryKind::Hidden => break,
+            }
+        }
+    }
 }
 
 const C16_FACTOR: u64 = 64;
@@ -1692,6 +1805,7 @@ fn cost_of(d: &TreeDesc, avail: Size<AvailableSpace>) -> Cost {
         misses: miss.iter().sum(),
         max_misses_per_node: miss.iter().copied().max().unwrap_or(0),
         queries: tr.len() as u64,
+        events: tr.iter().filter_map(|e| pos.get(&e.node).map(|i| (*i, e.clone()))).collect(),
         aborted,
         queries_exceeded,
         panicked: match r {
@@ -1742,6 +1856,15 @@ fn chain_families(r: &mut Rng, n_random: usize) -> Vec<ChainFamily> {
             ("flexrow-flexcol", vec![fr.clone(), fc.clone()]),
             ("block-flexcol-grid", vec![b.clone(), fc.clone(), g.clone()]),
             ("grid-flexrow", vec![g.clone(), fr.clone()]),
+            // items stretched in neither axis: sized under a min-content width and under a min-content height in one pass
+            (
+                "grid-flexcol-flexrow-start",
+                vec![
+                    g.clone(),
+                    Style { align_self: Some(AlignSelf::Start), justify_self: Some(AlignSelf::Start), ..fc.clone() },
+                    Style { align_self: Some(AlignSelf::Start), ..fr.clone() },
+                ],
+            ),
             ("flexcol-grid-block-flexrow", vec![fc, g, b, fr]),
         ]
     };
@@ -1915,6 +2038,9 @@ pub fn run_c16(cfg: &Cfg, out: &mut Out) -> String {
                 out.notes.push(format!("case {idx}: layout panicked ({e}); totality is C03's subject"));
             } else {
                 out.qa(&line, if ok { "ok" } else { "bad c16-measure-blowup" });
+                if c.nodes <= 60 {
+                    emit_cache_tie(out, &c, 1500);
+                }
                 if !ok {
                     out.impl_violation(format!(
                         "sig:c16-measure-blowup {} measure calls on {} nodes (> {}·N{}); available space {}; tree line: {}",
@@ -1961,6 +2087,9 @@ pub fn run_c16(cfg: &Cfg, out: &mut Out) -> String {
                 }
                 leaf_counts.push(*c.per_node.last().unwrap());
                 totals.push(c.total);
+                if d == 6 || d == 12 {
+                    emit_cache_tie(out, &c, 3000);
+                }
                 fam_max_miss = fam_max_miss.max(c.max_misses_per_node);
                 worst_chain_total_ratio = worst_chain_total_ratio.max(c.total as f64 / c.nodes as f64);
                 if c.queries_exceeded {
@@ -2337,6 +2466,108 @@ fn first_diff(a: &[Layout], b: &[Layout]) -> String {
 const C17_CACHE_FREE_BUDGET: u64 = 3_000_000;
 const C17_FULL_LINES: u64 = 4_000;
 
+/// an edit between two passes of the relayout stream, by preorder index
+#[derive(Clone, Debug)]
+enum VEdit {
+    MarkDirty(usize),
+    SetStyle(usize, Style),
+}
+
+fn gen_vedits(r: &mut Rng, d: &TreeDesc) -> Vec<VEdit> {
+    let n = d.count();
+    let mut styles = vec![];
+    fn collect(d: &TreeDesc, out: &mut Vec<(Style, bool)>) {
+        out.push((d.style.clone(), d.children.is_empty()));
+        for c in &d.children {
+            collect(c, out);
+        }
+    }
+    collect(d, &mut styles);
+    let k = 1 + r.below(3);
+    let cfg = GenCfg::all();
+    (0..k)
+        .map(|_| {
+            let i = r.below(n);
+            match r.below(5) {
+                0 | 1 => VEdit::MarkDirty(i),
+                2 | 3 => {
+                    // toggle display:none
+                    let mut st = styles[i].0.clone();
+                    st.display = if st.display == Display::None { Display::Block } else { Display::None };
+                    styles[i].0 = st.clone();
+                    VEdit::SetStyle(i, st)
+                }
+                _ => {
+                    let st = gen_style(r, &cfg, styles[i].1, i == 0);
+                    styles[i].0 = st.clone();
+                    VEdit::SetStyle(i, st)
+                }
+            }
+        })
+        .collect()
+}
+
+/// TaffyTree: layout, the edits through the public mutators, layout again
+fn taffy_relayout(d: &TreeDesc, a1: Size<AvailableSpace>, a2: Size<AvailableSpace>, rounding: bool, edits: &[VEdit]) -> Result<LL, String> {
+    let (mut t, root) = layout_fresh(d, a1, rounding)?;
+    catch(move || {
+        let mut ids = vec![];
+        preorder_ids(&t, root, &mut ids);
+        for e in edits {
+            match e {
+                VEdit::MarkDirty(i) => t.mark_dirty(ids[*i]).unwrap(),
+                VEdit::SetStyle(i, s) => t.set_style(ids[*i], s.clone()).unwrap(),
+            }
+        }
+        t.compute_layout_with_measure(root, a2, |k, a, _id, ctx, _style| measure(k, a, ctx)).unwrap();
+        (all_layouts(&t, root, true), all_layouts(&t, root, false))
+    })
+}
+
+/// the documented low-level driver: layout, the edits (store the style; clear the cache of the node and of every
+/// ancestor, as the `CacheTree` / `Cache::clear` documentation prescribes for a changed node), layout again
+fn vtree_relayout(d: &TreeDesc, a1: Size<AvailableSpace>, a2: Size<AvailableSpace>, rounding: bool, edits: &[VEdit]) -> Result<LL, String> {
+    catch(|| {
+        let mut t = VTree::new(false, u64::MAX);
+        let root = t.add(d);
+        t.compute_layout(root, a1, rounding);
+        let mut parent = vec![usize::MAX; t.nodes.len()];
+        for i in 0..t.nodes.len() {
+            for &c in &t.nodes[i].children.clone() {
+                parent[c] = i;
+            }
+        }
+        for e in edits {
+            let i = match e {
+                VEdit::MarkDirty(i) => *i,
+                VEdit::SetStyle(i, s) => {
+                    t.nodes[*i].style = s.clone();
+                    *i
+                }
+            };
+            let mut cur = i;
+            while cur != usize::MAX {
+                t.nodes[cur].cache.clear();
+                cur = parent[cur];
+            }
+        }
+        t.compute_layout(root, a2, rounding);
+        let unr: Vec<Layout> = t.nodes.iter().map(|n| n.unrounded_layout).collect();
+        let fin: Vec<Layout> = t.nodes.iter().map(|n| if rounding { n.final_layout } else { n.unrounded_layout }).collect();
+        (unr, fin)
+    })
+}
+
+fn vedits_brief(es: &[VEdit]) -> String {
+    es.iter()
+        .map(|e| match e {
+            VEdit::MarkDirty(i) => format!("mark_dirty(n{i})"),
+            VEdit::SetStyle(i, s) => format!("set_style(n{i}, {})", style_brief(s)),
+        })
+        .collect::<Vec<_>>()
+        .join("; ")
+}
+
 pub fn run_c17(cfg: &Cfg, out: &mut Out) -> String {
     let n = cfg.n(12_000, 200_000);
     let mut cache_free_done = 0u64;
@@ -2346,7 +2577,10 @@ pub fn run_c17(cfg: &Cfg, out: &mut Out) -> String {
     let mut drivers = 0u64;
     let mut order = 0u64;
     let mut stale = 0u64;
+    let mut relayout_diff = 0u64;
     let mut reported: BTreeMap<&'static str, u64> = BTreeMap::new();
+    // fixed relayout witness: one update dirties a node and hides a proper ancestor of it
+    // (runs as part of case 0 below through the random stream; the fixed form is kept in C01's witnesses)
     for idx in 0..n {
         if !cfg.wants(idx) {
             continue;
@@ -2376,6 +2610,71 @@ pub fn run_c17(cfg: &Cfg, out: &mut Out) -> String {
             }
         }
         out.count(if rounding { "rounding:on" } else { "rounding:off" });
+        // relayout stream: both drivers lay out, take the same edits, lay out again (real cache)
+        if idx % 2 == 0 {
+            let edits = gen_vedits(&mut r, &d);
+            let a2 = if r.chance(1, 2) { avail } else { gen_available(&mut r) };
+            let both = |m: Mode| {
+                let _g = ModeGuard::set(m);
+                (taffy_relayout(&d, avail, a2, rounding, &edits), vtree_relayout(&d, avail, a2, rounding, &edits))
+            };
+            let (tr, vr) = both(Mode::Real);
+            out.count("relayout:compared");
+            for e in &edits {
+                out.count(match e {
+                    VEdit::MarkDirty(_) => "relayout-edit:mark_dirty",
+                    VEdit::SetStyle(_, s) if s.display == Display::None => "relayout-edit:hide",
+                    VEdit::SetStyle(..) => "relayout-edit:set_style",
+                });
+            }
+            match (&tr, &vr) {
+                (Ok(a), Ok(b)) => {
+                    let same = ll_eq(a, b);
+                    out.qa(&format!("obs C17R {} {} {}", a.0.len(), ll_tokens(a), ll_tokens(b)), if same { "ok" } else { "bad c17-drivers-differ-after-edit" });
+                    if !same {
+                        // the low-level driver clears the caches of all ancestors, TaffyTree::mark_dirty stops at the first
+                        // empty cache: with the known lossy key / stale-layout findings the two dirty sets can give different
+                        // layouts. Neutralisers: exact keys, then exact keys + quiet hits.
+                        let agree = |m: Mode| matches!(both(m), (Ok(x), Ok(y)) if ll_eq(&x, &y));
+                        let sig = if agree(Mode::Exact) {
+                            lossy += 1;
+                            "c17-lossy-cache-key"
+                        } else if agree(Mode::Quiet) {
+                            stale += 1;
+                            "c17-stale-layout-after-compute-size"
+                        } else {
+                            relayout_diff += 1;
+                            "c17-drivers-differ-after-edit"
+                        };
+                        out.count(&format!("relayout:{sig}"));
+                        let what = if !same_layouts(&a.0, &b.0) { first_diff(&a.0, &b.0) } else { first_diff(&a.1, &b.1) };
+                        out.impl_violation(format!(
+                            "sig:{sig} TaffyTree ≠ documented low-level driver after layout; {}; layout: {}; avail {} then {} rounding {rounding}; tree: {}",
+                            vedits_brief(&edits),
+                            what,
+                            avail_brief(avail),
+                            avail_brief(a2),
+                            tree_brief(&d)
+                        ));
+                    }
+                }
+                (Err(_), Err(_)) => {
+                    out.count("relayout:panic-both");
+                    out.qa("panicked C17 1", "ok panic");
+                }
+                _ => {
+                    relayout_diff += 1;
+                    out.qa("panicked C17 0", "bad c17-drivers-differ");
+                    out.impl_violation(format!(
+                        "sig:c17-drivers-differ-after-edit exactly one of the drivers panicked on the second pass (taffy {} vtree {}); {}; tree: {}",
+                        tr.is_err(),
+                        vr.is_err(),
+                        vedits_brief(&edits),
+                        tree_brief(&d)
+                    ));
+                }
+            }
+        }
         let t_real = taffy_layouts(&d, avail, rounding, Mode::Real);
         let v_real = vtree_layouts(&d, avail, rounding, Mode::Real, false, u64::MAX);
         let t_exact = taffy_layouts(&d, avail, rounding, Mode::Exact);
